@@ -87,6 +87,10 @@ fn main() {
         c07::child_main(&args[2..], &out);
         return;
     }
+    if args.get(1).map(|s| s.as_str()) == Some("c10-child") {
+        c10::child_main(&args[2..], &out);
+        return;
+    }
     let code = match args.get(1).map(|s| s.as_str()) {
         Some("gate") => match refbbs::fixtures::gate(std::path::Path::new("/repo")) {
             Ok(g) => {
